@@ -99,6 +99,12 @@ def run_driver(exe, script, events, timeout=20, wall=3600, append=False):
                     sid = int(m.group(1))
                     break
             lines.append('{"s":%d,"i":999999,"h":-1,"op":"crash","during":"killed rc=%d"}' % (sid, rc))
+        # a crash inside a call that was being logged leaves an unfinished event line just before the marker: drop it
+        if len(lines) >= 2:
+            try:
+                json.loads(lines[-2])
+            except ValueError:
+                del lines[-2]
         with open(events, "w") as f:
             f.write("\n".join(lines) + "\n")
         restarts += 1
